@@ -16,37 +16,38 @@ import (
 
 // Profile biases the generated workload towards what a property needs.
 type Profile struct {
-	MaxJobConfigs  int
-	MinJobConfigs  int
-	MaxJobs        int
-	MinJobs        int
-	OwnedBias      int // percent of Jobs that belong to a JobConfig (when one exists)
-	Policies       []execution.ConcurrencyPolicy
-	MaxConcurrency int // upper bound for maxConcurrency (>=1)
-	Parallel       int // percent of Jobs with parallelism
-	MaxAttempts    int
-	MaxRetryDelay  int
-	KillPct        int
-	DeletePct      int
-	StartAfterPct  int
-	PendingTimeout []int64 // choices for taskPendingTimeoutSeconds (-1: unset)
-	TTL            []int64 // choices (-1 unset)
-	ForbidForce    int     // percent of Jobs forbidding force deletion
-	ForeignPct     int     // percent of Jobs for which a foreign Pod occupies a task name
-	Spread         int     // seconds over which Job creations are spread
-	Namespaces     []string
-	Burst          bool          // create several Jobs within the same second
-	CronJCs        int           // number of JobConfigs with a cron schedule (needs Options.Cron)
-	EditStartAfter int           // percent of startAfter Jobs whose startAfter is postponed by the user later
-	FutureKill     int           // percent of kills with a kill timestamp in the future
-	CronStopAfter  time.Duration // the user disables every cron schedule at this time (0: never), making the workload finite
-	HostileNames   bool          // JobConfig names containing dots and digits (the cron work item key is <ns>/<name>.<unix>)
-	DupRequests    int           // number of injected duplicate / out-of-order schedule requests
-	TemplateMeta   int           // percent of JobConfigs whose job template carries labels/annotations (incl. furiko-owned keys with stale values)
-	LateJobConfigs int           // percent of JobConfigs created later, at the very instant their first Job is created (JobConfig cache may lag behind the Job cache)
-	DeleteNewest   int           // number of user operations deleting the newest scheduled Job of a JobConfig
-	ClearKillPct   int           // percent of kills followed later by an update that removes spec.killTimestamp again (re-applied manifest)
-	ForceRemovePct int           // percent of Jobs whose finalizers are stripped by the user before deleting them (the object disappears while active)
+	MaxJobConfigs       int
+	MinJobConfigs       int
+	MaxJobs             int
+	MinJobs             int
+	OwnedBias           int // percent of Jobs that belong to a JobConfig (when one exists)
+	Policies            []execution.ConcurrencyPolicy
+	MaxConcurrency      int // upper bound for maxConcurrency (>=1)
+	Parallel            int // percent of Jobs with parallelism
+	MaxAttempts         int
+	MaxRetryDelay       int
+	KillPct             int
+	DeletePct           int
+	StartAfterPct       int
+	PendingTimeout      []int64 // choices for taskPendingTimeoutSeconds (-1: unset)
+	TTL                 []int64 // choices (-1 unset)
+	ForbidForce         int     // percent of Jobs forbidding force deletion
+	ForeignPct          int     // percent of Jobs for which a foreign Pod occupies a task name
+	Spread              int     // seconds over which Job creations are spread
+	Namespaces          []string
+	Burst               bool          // create several Jobs within the same second
+	CronJCs             int           // number of JobConfigs with a cron schedule (needs Options.Cron)
+	EditStartAfter      int           // percent of startAfter Jobs whose startAfter is postponed by the user later
+	FutureKill          int           // percent of kills with a kill timestamp in the future
+	CronStopAfter       time.Duration // the user disables every cron schedule at this time (0: never), making the workload finite
+	HostileNames        bool          // JobConfig names containing dots and digits (the cron work item key is <ns>/<name>.<unix>)
+	DupRequests         int           // number of injected duplicate / out-of-order schedule requests
+	TemplateMeta        int           // percent of JobConfigs whose job template carries labels/annotations (incl. furiko-owned keys with stale values)
+	LateJobConfigs      int           // percent of JobConfigs created later, at the very instant their first Job is created (JobConfig cache may lag behind the Job cache)
+	ForeignFinalizerPct int           // percent of Jobs created with a finalizer of some other tool, deleted later, the foreign finalizer released after that
+	DeleteNewest        int           // number of user operations deleting the newest scheduled Job of a JobConfig
+	ClearKillPct        int           // percent of kills followed later by an update that removes spec.killTimestamp again (re-applied manifest)
+	ForceRemovePct      int           // percent of Jobs whose finalizers are stripped by the user before deleting them (the object disappears while active)
 }
 
 // Workload is a generated case.
@@ -313,6 +314,33 @@ func Gen(r *rand.Rand, p Profile) *Workload {
 				if cur, err := jobs.Get(context.Background(), obj.Name, metav1.GetOptions{}); err == nil && cur.Spec.KillTimestamp != nil {
 					cur.Spec.KillTimestamp = nil
 					_, _ = jobs.Update(context.Background(), cur, metav1.UpdateOptions{})
+				}
+			}})
+		}
+		if r.Intn(100) < p.ForeignFinalizerPct {
+			j.Finalizers = []string{"example.com/hold"}
+			delAt := at + time.Duration(5+r.Intn(90))*time.Second
+			relAt := delAt + time.Duration(2+r.Intn(40))*time.Second
+			wl.Ops = append(wl.Ops, UserOp{At: delAt, Name: "delete " + name + " (has a foreign finalizer)", Do: func(w *World) {
+				_ = w.User.Furiko().ExecutionV1alpha1().Jobs(obj.Namespace).Delete(context.Background(), obj.Name, metav1.DeleteOptions{})
+			}})
+			wl.Ops = append(wl.Ops, UserOp{At: relAt, Name: "release the foreign finalizer of " + name, Do: func(w *World) {
+				jobs := w.User.Furiko().ExecutionV1alpha1().Jobs(obj.Namespace)
+				for try := 0; try < 3; try++ {
+					cur, err := jobs.Get(context.Background(), obj.Name, metav1.GetOptions{})
+					if err != nil {
+						return
+					}
+					var keep []string
+					for _, f := range cur.Finalizers {
+						if f != "example.com/hold" {
+							keep = append(keep, f)
+						}
+					}
+					cur.Finalizers = keep
+					if _, err := jobs.Update(context.Background(), cur, metav1.UpdateOptions{}); err == nil {
+						return
+					}
 				}
 			}})
 		}
